@@ -350,6 +350,8 @@ def main():
     only = os.environ.get("C01_PARTS")
     if only:
         parts = [p for i, p in enumerate(parts) if str(i) in only]
+    if not only or "S" in only:
+        run_skeletons(H)
     for name, mk in parts:
         t0 = time.time()
         m = parallel_explore(mk, H.jobs)
@@ -361,6 +363,69 @@ def main():
                      "steps": "evaluation followed for 40-60 steps; longer runs count as 'still running'",
                      "outside": "tokenizer and packrat stage (inputs are terms satisfying the parser-output invariants); larger programs"})
     return H.finish()
+
+
+def run_skeletons(H):
+    """Progress on program skeletons accepted by the compiled front end (recursion, mutual recursion,
+    local groups, a recursive definition that uses a later sibling), every literal symbolic: the real
+    `step` is iterated on the elaborated term and must end in a value (or a division by zero)."""
+    if H.worker:
+        return
+    import c02
+    for name, src, build, syms, assumptions, info in c02.skeleton_inputs(H):
+        ex, it = H.engine(assumptions=assumptions, solver_timeout_ms=120000)
+        ex.fuel = 200000
+        it.max_call_depth = 3000
+
+        def body(ex, build=build, info=info):
+            it.call_depth = 0
+            cur = build()
+            try:
+                for i in range(400):
+                    r = it.resolve(it.call("evaluator", "step", [cur]))
+                    if r.variant != "Some":
+                        break
+                    cur = r.fields[0]
+                else:
+                    ex.count("still-running")
+                    return
+                v = it.truth(it.call("evaluator", "is_value", [cur]))
+            except FuelExhausted:
+                ex.count("still-running")
+                return
+            except PanicEx as p:
+                ex.check(False, "PANIC %s (%s.rs:%s)" % (p.msg, p.module, p.line), info=info)
+                return
+            if v:
+                ex.count("value")
+                ex.check(True, "P0.ends-in-a-value")
+                return
+            why = stuck_reason(ex, it, cur)
+            if why == "division by zero":
+                ex.count("division-by-zero")
+                return
+            ex.check(False, "P0.stuck: " + why, info=info)
+        t0 = time.time()
+        ex.explore(body)
+        H.absorb("skeleton " + name, ex)
+        H.log("skeleton %-34s %d paths %s, %d obligations, %d discharged, %.1fs" % (name, ex.stats.paths, dict(ex.counters), ex.stats.obligations, ex.stats.discharged, time.time() - t0))
+        for v in ex.violations[:2]:
+            reproduced, detail = confirm_skeleton(H, v.label, v.info)
+            H.report(v.label, v.info, reproduced, detail)
+
+
+def confirm_skeleton(H, label, case):
+    replay = H.get_replay()
+    st = replay.call({"op": "steps", "term": case["t"], "cells": {}, "limit": 20000})
+    if "term" not in st:
+        return True, "skeleton %s: compiled evaluation failed: %s" % (case.get("skeleton"), st)
+    if st["exhausted"] or st["is_value"]:
+        return False, "skeleton %s evaluates to %s" % (case.get("skeleton"), st.get("shown"))
+    cx = ConcreteCtx()
+    why = stuck_reason(cx, None, T.from_json(st["term"], st.get("cells", {}), {}))
+    if why == "division by zero":
+        return False, "division by zero"
+    return True, "skeleton %s (accepted by the compiled front end) is stuck at %s: %s" % (case.get("skeleton"), st["shown"], why)
 
 
 def validate_order(H, n):
